@@ -1018,6 +1018,12 @@ func (f *Frame) applyContract0(in ssa.Instruction, ct *Contract, fn *ssa.Functio
 		// ghost parameters were arbitrary when the callee was verified: the clause holds for all of them
 		var bound []string
 		ee := e
+		c.curOpaque = ""
+		for _, tg := range en.Tags {
+			if strings.HasPrefix(tg, "opaque:") {
+				c.curOpaque = strings.TrimPrefix(tg, "opaque:")
+			}
+		}
 		for _, gp := range ct.GhostParams {
 			if regexp.MustCompile(`\b` + regexp.QuoteMeta(gp[0]) + `\b`).MatchString(en.Text) {
 				bn := qsym(c.freshName("gp_" + gp[0]))
@@ -1045,6 +1051,7 @@ func (f *Frame) applyContract0(in ssa.Instruction, ct *Contract, fn *ssa.Functio
 		}
 		c.assume(g, t)
 	}
+	c.curOpaque = ""
 	if a := ct.Flags["alloc"]; a != "" {
 		ex, err := parseExpr(a)
 		if err != nil {
@@ -1246,6 +1253,7 @@ func (f *Frame) appendOp(in ssa.Instruction, cc *ssa.CallCommon, args []SV, st *
 		}
 	}
 	sLen := "(s.len " + s + ")"
+	oldH := st.get(eh)
 	n := c.freshConst("applen", "Int")
 	c.assert(eq(n, "(+ "+sLen+" "+tLen+")"))
 	fits := c.freshConst("appfits", "Bool")
@@ -1268,6 +1276,23 @@ func (f *Frame) appendOp(in ssa.Instruction, cc *ssa.CallCommon, args []SV, st *
 	// append(nil, <empty>...) stays nil
 	res = ite("(and (= (s.ref "+s+") 0) (= "+tLen+" 0))", "(mk-slice 0 0 0 0)", res)
 	f.x.syncViews(st)
+	if rc := f.x.root; rc != nil && rc.contract != nil && rc.contract.Flags["appendframe"] != "" {
+		// Derived fact (implied by the two cases above), stated once with the old and once with the new element term as
+		// pattern, so that quantified facts about the elements of s reach the result and vice versa:
+		// the first len(s) elements of the result are the elements of s.
+		rn := c.freshConst("appres", "Slice")
+		c.assert(eq(rn, res))
+		res = rn
+		c.quant = true
+		newH := st.get(eh)
+		j := qsym(c.freshName("j_app"))
+		oldAt := func(ix string) string { return fmt.Sprintf("(select (select %s (s.ref %s)) %s)", oldH, s, ix) }
+		newAt := func(ix string) string { return fmt.Sprintf("(select (select %s (s.ref %s)) %s)", newH, rn, ix) }
+		c.assume(g, fmt.Sprintf("(forall ((%[1]s Int)) (! (=> (and (<= (s.off %[2]s) %[1]s) (< %[1]s (+ (s.off %[2]s) %[3]s))) (= %[4]s %[5]s)) :pattern (%[5]s)))",
+			j, s, sLen, newAt("(+ "+j+" (- (s.off "+rn+") (s.off "+s+")))"), oldAt(j)))
+		c.assume(g, fmt.Sprintf("(forall ((%[1]s Int)) (! (=> (and (<= (s.off %[2]s) %[1]s) (< %[1]s (+ (s.off %[2]s) %[3]s))) (= %[4]s %[5]s)) :pattern (%[4]s)))",
+			j, rn, sLen, newAt(j), oldAt("(+ "+j+" (- (s.off "+s+") (s.off "+rn+")))")))
+	}
 	return tv(res)
 }
 
